@@ -5,8 +5,8 @@ import UmProofs.BrokerDefs
 `SameButEpoch s s'`: the two stores agree on everything except `globalEpoch`.
 `Refused s p`: the operation result `p` is an error and the store is `SameButEpoch`.
 -/
-namespace Um.Broker
-open Um Um.Slots
+namespace Um.Broker.Scale
+open Um Um.Slots Um.Broker
 
 /-! ## store helpers -/
 
@@ -14,17 +14,17 @@ open Um Um.Slots
 def Store.SameButEpoch (s s' : Store) : Prop :=
   s'.clusters = s.clusters ∧ s'.proxies = s.proxies ∧ s'.failed = s.failed ∧ s'.failures = s.failures
 
-theorem Store.SameButEpoch.rfl' (s : Store) : s.SameButEpoch s := ⟨rfl, rfl, rfl, rfl⟩
+theorem Store.SameButEpoch.rfl' (s : Store) : Store.SameButEpoch s s := ⟨rfl, rfl, rfl, rfl⟩
 
-theorem Store.sameButEpoch_bump (s : Store) : s.SameButEpoch s.bump := ⟨rfl, rfl, rfl, rfl⟩
+theorem Store.sameButEpoch_bump (s : Store) : Store.SameButEpoch s s.bump := ⟨rfl, rfl, rfl, rfl⟩
 
-theorem Store.SameButEpoch.trans {a b c : Store} (h1 : a.SameButEpoch b) (h2 : b.SameButEpoch c) :
-    a.SameButEpoch c :=
+theorem Store.SameButEpoch.trans {a b c : Store} (h1 : Store.SameButEpoch a b) (h2 : Store.SameButEpoch b c) :
+    Store.SameButEpoch a c :=
   ⟨h2.1.trans h1.1, h2.2.1.trans h1.2.1, h2.2.2.1.trans h1.2.2.1, h2.2.2.2.trans h1.2.2.2⟩
 
 @[simp] theorem Store.findCluster_bump (s : Store) (n : String) : s.bump.findCluster n = s.findCluster n := rfl
 
-theorem Store.findCluster_of_same {s s' : Store} (h : s.SameButEpoch s') (n : String) :
+theorem Store.findCluster_of_same {s s' : Store} (h : Store.SameButEpoch s s') (n : String) :
     s'.findCluster n = s.findCluster n := by
   unfold Store.findCluster; rw [h.1]
 
@@ -39,7 +39,7 @@ theorem Store.findCluster_mem {s : Store} {n : String} {cl : Cluster} (h : s.fin
 
 /-- an operation result that is an error and changed at most the global epoch -/
 def Refused {α : Type} (s : Store) (p : Store × R α) : Prop :=
-  (∃ e, p.2 = R.err e) ∧ s.SameButEpoch p.1
+  (∃ e, p.2 = R.err e) ∧ Store.SameButEpoch s p.1
 
 theorem refused_same {α : Type} (s : Store) (e : Err) : Refused (α := α) s (s, R.err e) :=
   ⟨⟨e, rfl⟩, Store.SameButEpoch.rfl' s⟩
@@ -137,4 +137,4 @@ theorem autoScaleOutNodeNumber_refuse {s : Store} {name : String} {cl : Cluster}
       · exact Or.inl (migrateSlots_refuse hf hm)
       · exact Or.inr rfl
 
-end Um.Broker
+end Um.Broker.Scale
